@@ -209,6 +209,11 @@ theorem stretch_zero (t : SegType) (mfv : Nat) (b : List Nat) (hb : b.any (· !=
     simp at this; subst this; simp
   · exact hb
 
+theorem unsignedDtype_spec (n : Nat) (b : Int) (h : unsignedDtype (n : Int) = .ok b) :
+    (b = 8 ∧ n < 256) ∨ (b = 16 ∧ n < 65536) ∨ b = 32 := by
+  unfold unsignedDtype at h
+  grind (splits := 40)
+
 theorem bits_bound (t : SegType) (segs : List Nat) (bits : Nat) (hbits : bitsFor t segs = .ok bits) :
     (bits = 1 ∨ bits = 8 ∨ bits = 16) ∧ (t = .binary → bits = 1) ∧ (t = .fractional → bits = 8) ∧
     (t = .labelmap → listMax segs < 2 ^ bits) := by
@@ -219,10 +224,18 @@ theorem bits_bound (t : SegType) (segs : List Nat) (bits : Nat) (hbits : bitsFor
   | labelmap =>
     simp only at hbits
     split at hbits
-    · simp at hbits; subst hbits; simp; omega
-    · split at hbits
-      · simp at hbits; subst hbits; simp; omega
-      · simp at hbits
+    · cases hbits
+    · rename_i b hb
+      split at hbits
+      · cases hbits
+      · rename_i h32
+        split at hbits
+        · cases hbits
+        · simp only [Except.ok.injEq] at hbits
+          rcases unsignedDtype_spec (listMax segs) b hb with ⟨rfl, hn⟩ | ⟨rfl, hn⟩ | rfl
+          · simp at hbits; subst hbits; simp; omega
+          · simp at hbits; subst hbits; simp; omega
+          · exact absurd rfl h32
 
 theorem mem_segmentsIterable (t : SegType) (segs : List Nat) (sg : Option Nat) :
     sg ∈ segmentsIterable t segs ↔ (t = .labelmap ∧ sg = none) ∨ (t ≠ .labelmap ∧ ∃ s ∈ segs, sg = some s) := by
